@@ -37,23 +37,29 @@ def body(run):
         lambda: run.tlc("ClientConn", "ClientConnMC", "C27_gen_sim.cfg", mode="gen", count=False, timeout=3000,
                         simulate=run.pick(150, 800), depth=90, label="as-is model: seeded sample of interleavings"),
         lambda: exe.__setitem__(0, run.go_build("clientconn")),
+        lambda: run.tlc("ClientConn", "ClientConnMC", "C27_gen_full.cfg", mode="gen", count=False, timeout=3000,
+                        label="as-is model: behaviours that end with a goroutine about to signal on a full channel"),
         # thorough: the model of the proposed repair (non-blocking sends only) has no stuck call either
         (lambda: None) if q else (lambda: run.tlc("ClientConn", "ClientConnMC", "C27_fix_nonblocking.cfg", timeout=3000, workers=6,
                                                    label="repair model: non-blocking signal sends, two channels kept -> no stuck call")),
     )
     bad, sim = res[3].rows, res[4].rows
     if not bad:
-        raise vf.Inconclusive("as-is model produced no stuck behaviour")
+        raise vf.Inconclusive("as-is model produced no lost-resume behaviour")
     stuck = [b for b in bad if b["stuck"]]
     lost = [b for b in bad if b["lostresume"] and not b["stuck"]]
     shape = lambda b: (json.dumps(cl.scripts_of(b), sort_keys=True), b["lpc"], b["stuck"], b["lostresume"])
     sel_stuck = cl.pick(stuck, run.pick(2, 40), run.seed, key=lambda b: b["lpc"])
     sel_lost = cl.pick(sorted(lost, key=lambda b: len(b["steps"])), run.pick(2, 12), run.seed, key=lambda b: len(b["steps"]) // 6)
     normal = [b for b in sim if not b["stuck"] and not b["lostresume"]]
-    sel_norm, feats = cl.pick_features(normal, run.pick(8, 80), run.seed)
+    sel_norm, feats = cl.pick_features(normal, run.pick(7, 80), run.seed)
     run.cov["situations_covered"] = feats
+    full = res[6].rows
+    sel_full = cl.pick(sorted(full, key=lambda b: len(b["steps"])), run.pick(2, 20), run.seed,
+                       key=lambda b: (json.dumps(sorted(b["full"])), b["lpc"], b["mux"]))
+    run.cov["behaviours_full_channel"] = len(full)
     cases, scripts = [], {}
-    for kind, sel, tries in (("stuck", sel_stuck, 2), ("lost", sel_lost, 6), ("norm", sel_norm, 3)):
+    for kind, sel, tries in (("stuck", sel_stuck, 2), ("lost", sel_lost, 6), ("full", sel_full, 3), ("norm", sel_norm, 3)):
         for i, b in enumerate(sel):
             c = cl.strip_init(b)
             c["id"] = "%s%d" % (kind, i)
